@@ -112,7 +112,6 @@ func (p *peer) wasReset() bool { return p.sock.WasReset() }
 // reset aborts the connection underneath whatever protocol runs on it.
 func (p *peer) reset() { p.sock.Reset() }
 
-
 // pumpConn is the connection handed to the crypto/tls client. crypto/tls is not transformed:
 // its mutexes are real ones. A goroutine of the simulation must therefore never be parked
 // while it holds one of them, or the next goroutine that wants it blocks for real and the
